@@ -950,7 +950,7 @@ def tasks_for(tier):
             tasks.append((_cfg(kinds, COMPOSITE_SIZES[(j + wi) % 5], w), 2, full, 12))
         if not quick or j % 4 == 1:
             tasks.append((_cfg(kinds, COMPOSITE_SIZES[(j + 1) % 3], WALKERS[(j + 1) % 3], True, "sparse"), 2, QUICK_OPTS, 12))
-    for j, kinds in enumerate([COMPOSITE[1], COMPOSITE[12]] if quick else [COMPOSITE[i] for i in (1, 7, 8, 12)]):
+    for j, kinds in enumerate([COMPOSITE[1], COMPOSITE[12]]):
         cfg = _cfg(kinds, (3, 3 - j % 2), WALKERS[j % 3])
         if quick:
             tasks.append((cfg, 3, DEEP_OPTS, 30))
